@@ -351,6 +351,7 @@ type FuncSpec struct {
 	Reveals  []*SExpr
 	InlineCalls []string // callees executed from their bodies (with this function's unroll bound) although they have contracts
 	UnrollComplete bool
+	OverflowChecked bool // int/int64 + - *: absence of overflow is an obligation, then the exact result is used
 	Unroll   int // default unroll for all loops of the function (bounded mode)
 }
 
@@ -376,7 +377,7 @@ type Contracts struct {
 	Globals map[string]string
 }
 
-var clauseKw = regexp.MustCompile(`^(requires|ensures|modifies|loop|end|inline-calls|inline|trusted|pure-effects|noalloc|unroll|reveal)\b`)
+var clauseKw = regexp.MustCompile(`^(requires|ensures|modifies|loop|end|inline-calls|int-overflow-checked|inline|trusted|pure-effects|noalloc|unroll|reveal)\b`)
 var labelRe = regexp.MustCompile(`^([A-Za-z_][A-Za-z0-9_]*)\s*(\[[A-Z0-9, ]*\])?\s*:\s*(.*)$`)
 
 func parseTags(s string) []string {
@@ -591,6 +592,8 @@ func (cs *Contracts) parseFile(pkg, file, data string) {
 				panic(fmt.Sprintf("%s:%d: reveal needs a function application", file, l.n))
 			}
 			cur.Reveals = append(cur.Reveals, x)
+		case s == "int-overflow-checked":
+			cur.OverflowChecked = true
 		case s == "inline":
 			cur.Inline = true
 		case s == "trusted":
